@@ -167,6 +167,31 @@ fn main() {
             }
             println!("runs={} wall={:.1}s", b.runs_done, b.wall_s);
         }
+        "shard" => {
+            // internal: one worker process of a batch (see runner::run_batch)
+            if args.len() < 10 {
+                usage();
+            }
+            let engine = engine_by_name(&args[2]).unwrap_or_else(|| usage());
+            let n = |i: usize| -> u64 { args[i].parse().unwrap_or_else(|_| usage()) };
+            let max_wall: f64 = args[8].parse().unwrap_or(600.0);
+            let b = runner::run_shard(&*engine, n(3), n(4), n(5), n(6), n(7), max_wall, args[9] == "1");
+            println!("{}", runner::batch_to_json(&b));
+        }
+        "trace" => {
+            // development aid: the event log of one run index of an engine
+            let engine = engine_by_name(&args[2]).unwrap_or_else(|| usage());
+            let run: u64 = args.get(3).and_then(|v| v.parse().ok()).unwrap_or(0);
+            let seed = env_u64("VERIF_SEED", 1);
+            let tape = crate::tape::Tape::from_seed(runner::run_seed(seed, &*engine, run));
+            let out = runner::exec_one(&*engine, tape, run % engine.variants(), true);
+            for l in &out.log {
+                println!("{}", l);
+            }
+            for (p, k, d) in &out.violations {
+                println!("violation {} {} :: {}", p, k, d);
+            }
+        }
         "digest" => {
             if args.len() < 6 {
                 usage();
@@ -176,6 +201,10 @@ fn main() {
             let runs: u64 = args[4].parse().unwrap();
             let workers: usize = args[5].parse().unwrap();
             let b = runner::run_batch(&*engine, seed, 0, runs, workers, 600.0, true);
+            if b.found.iter().any(|f| f.property == "HARNESS" && f.kind == "shard_failed") {
+                eprintln!("HARNESS-ERROR a shard process failed");
+                std::process::exit(2);
+            }
             println!("DIGEST {:016x}", runner::batch_digest(&b));
         }
         "replay" => {
